@@ -74,4 +74,73 @@ def paragraph (shapes : List Shape) (p : IR.Para) : Except PyErr (List IR.OutLin
   | some r => r
   | none => .error (.recursion "iter_line_boxes")
 
+/-! ### a line taller than the strut: the second pass of `get_next_linebox`
+
+When the laid-out line is higher than the height the line box was first placed with (`candidate_height`:
+the strut), `avoid_collisions` is asked again with the real line; if it answers another position, the
+line is laid out again **there, in the width available there**, and so on.  `lineH`: the height of every
+line of the paragraph (an inline box with a larger `line-height` spans the whole text); `strut`: the used
+line-height of the block. -/
+
+/-- the `while True` loop of `get_next_linebox` from the position `(px, py)` with `avail` -/
+def tallLoop (shapes : List Shape) (p : IR.Para) (lineH : Rat) (skip' : Option Skip) (first : Bool) :
+    Nat → Rat → Rat → Rat → Rat → Except PyErr (Option IR.OutLine)
+  | 0, _, _, _, _ => .error (.recursion "get_next_linebox")
+  | n + 1, px, py, avail, candidate =>
+    let cb : CB := { cx := p.cbx, w := p.width, rtl := false }
+    let indent := if first then p.indent else 0
+    let lineX := px
+    let maxX := lineX + avail
+    let posX := lineX + indent
+    (splitLine p.st depthBound p.kids posX lineX maxX skip').bind fun lo =>
+      if phantomL lo.kids && !lo.preserved then
+        .ok (some { x := lineX, y := py, w := lo.w, h := 0, kids := lo.kids, resume := lo.resume })
+      else
+        (removeLast p.st depthBound lo.kids).bind fun rl =>
+          let lineW := lo.w - rl.2
+          let last := lo.resume.isNone || lo.preserved
+          (avoidCollisions shapes (LF.lineABox py lo.w p.st.fs) cb false).bind fun place2 =>
+            (textAlign p.align (.inl lineX lineW false []) lineW place2.avail last).bind fun r =>
+              let off := r.1
+              let line : IR.OutLine := { x := lineX + off, y := py, w := lineW, h := lineH,
+                                         kids := translateL off rl.1, resume := lo.resume }
+              -- `if line.height <= candidate_height: break`
+              if lineH ≤ candidate then .ok (some line)
+              else
+                (avoidCollisions shapes (LF.lineABox py lineW lineH) cb false).bind fun place3 =>
+                  -- `(position_x, position_y) == (original_position_x, original_position_y)`
+                  if place3.x = lineX ∧ place3.y = py then .ok (some line)
+                  else tallLoop shapes p lineH skip' first n place3.x place3.y place3.avail lineH
+
+/-- One `get_next_linebox` next to floats for a paragraph whose lines are `lineH` high while the strut of
+the block is `strut` (ltr). -/
+def nextLineTall (shapes : List Shape) (p : IR.Para) (strut lineH : Rat) (skip : Option Skip) (y : Rat) (first : Bool) :
+    Except PyErr (Option IR.OutLine) :=
+  (skipFirst p.st.ws depthBound (.box 0 0 false p.kids) skip).bind fun sr =>
+    match sr with
+    | .cont => .ok none
+    | .skip skip' =>
+      let cb : CB := { cx := p.cbx, w := p.width, rtl := false }
+      (if shapes.isEmpty then .ok ((0 : Rat), (0 : Rat))
+        else (IP.minContentWidth p.st p.kids p.indent true true false skip').map fun w => (w, strut)).bind fun wh =>
+      (avoidCollisions shapes (LF.lineABox y wh.1 wh.2) cb false).bind fun place =>
+        tallLoop shapes p lineH skip' first (shapes.length + 3) place.x place.y place.avail wh.2
+
+def iterLinesTall (shapes : List Shape) (p : IR.Para) (strut lineH : Rat) :
+    Nat → Option Skip → Rat → Bool → Option (Except PyErr (List IR.OutLine))
+  | 0, _, _, _ => none
+  | fuel + 1, skip, y, first =>
+    match nextLineTall shapes p strut lineH skip y first with
+    | .error e => some (.error e)
+    | .ok none => some (.ok [])
+    | .ok (some line) =>
+      match line.resume with
+      | none => some (.ok [line])
+      | some r => (iterLinesTall shapes p strut lineH fuel (some r) (line.y + line.h) false).map (·.map (line :: ·))
+
+def paragraphTall (shapes : List Shape) (p : IR.Para) (strut lineH : Rat) : Except PyErr (List IR.OutLine) :=
+  match iterLinesTall shapes p strut lineH (2 * textLenL p.kids + 4) none p.y true with
+  | some r => r
+  | none => .error (.recursion "iter_line_boxes")
+
 end Wp.LFI
